@@ -753,6 +753,10 @@ def run(ctx):
     for k in range(ctx.scale(6, 40)):
         case = dict(kind='mpc-nonlinear', system=rng.choice(['pend', 'cubic']), T=rng.randint(1, 8), seed=ctx.seed * 1000 + k,
                     steps=rng.randint(1, 8), h=rng.choice([0.05, 0.1, 0.25]))
+        if k % 2:
+            # strongly nonlinear, coarse step, few iterations: the iLQR iterates are not monotone, so the cost reported must
+            # really be that of the trajectory returned (not of an earlier, better iterate)
+            case.update(system='pend', T=rng.randint(8, 12), steps=rng.randint(2, 4), h=0.5, x0scale=rng.choice([2.0, 2.5, 3.0]))
         ctx.case(('mpc-nonlinear', k, case['system'], case['T']), nontrivial=case['T'] >= 2, branch='mpc-nonlinear:' + case['system'])
         ctx.traces += 1
         why = check_case(case)
@@ -892,7 +896,7 @@ def check_case(case):
         Qd = torch.rand(1, T, n, generator=g, dtype=torch.float64) + 0.5
         Q = torch.diag_embed(Qd)
         p = torch.randn(1, T, n, generator=g, dtype=torch.float64)
-        x0 = torch.randn(1, ns, generator=g, dtype=torch.float64)
+        x0 = torch.randn(1, ns, generator=g, dtype=torch.float64) * case.get('x0scale', 1.0)
         u0 = 0.1 * torch.randn(1, T, 1, generator=g, dtype=torch.float64)
         sysm = mk()
         mpc = pp.module.MPC(sysm, Q, p, T, stepper=ReduceToBason(steps=case['steps']))
